@@ -78,8 +78,8 @@ def jobs(tier, seed):
     # ---- ECDSA: cases = signatures (each: 1 RFC 6979 comparison, 2 verifications of the valid signature,
     #      1 arbitrary-hash-length signature, 3 mutated ones); CPU per signature 0.04 / 0.18 / 0.4 s
     for curve, nsig, nw in (('P256', 900 if q else 24000, 6 if q else 24),
-                            ('P384', 450 if q else 5000, 12 if q else 24),
-                            ('P521', 350 if q else 1800, 20 if q else 20)):
+                            ('P384', 400 if q else 5000, 12 if q else 24),
+                            ('P521', 300 if q else 1800, 20 if q else 20)):
         for w in range(nw):
             out.append((30.0 if q else 700.0, Job('ecdsa-%s-%d' % (curve, w), 'h_ec',
                                 ['--mode', 'ecdsa', '--curve', curve, '--cases', nsig, '--seed', seed,
